@@ -127,6 +127,8 @@ def run_property(prop, tier, seed, workers=None, replay=None, keep_logs=False, q
         from vlib import sanitize as vsan
         ginfo = vbuild.build(grp.get("flavour", "plain"))
         genv = child_env(ginfo["dir"], extra_env)
+        if ginfo.get("shim"):
+            genv["VERIF_SHIM_LIB"] = ginfo["shim"]
         if grp.get("flavour") == "asan":
             se = vsan.asan_env(logdir, tag="asan-" + grp["name"])
             if se is None:
